@@ -522,7 +522,7 @@ def bundled_scenario(draw, max_boards=3):
 
 
 def plan_c11(tier):
-    n, per = (8, 60) if tier == 'quick' else (12, 2500)
+    n, per = (8, 160) if tier == 'quick' else (12, 2500)
     return [{'kind': 'bundled', 'n': per, 'max_boards': 3 if tier == 'quick' else 5} for _ in range(n)]
 
 
@@ -569,8 +569,8 @@ def header_scenario(draw):
 
 
 def plan_c19(tier):
-    n, per = (4, 60) if tier == 'quick' else (6, 3000)
-    m, perm = (6, 40) if tier == 'quick' else (8, 2500)
+    n, per = (4, 150) if tier == 'quick' else (6, 3000)
+    m, perm = (6, 120) if tier == 'quick' else (8, 2500)
     return [{'kind': 'server_built', 'n': per} for _ in range(n)] + [{'kind': 'relayed', 'n': perm} for _ in range(m)]
 
 
